@@ -1809,9 +1809,14 @@ def _lincomb_impl(a, x1, b, x2, out):
         def fallback_axpy(x1, x2, n, a):
             """Fallback axpy implementation avoiding copy."""
             if a != 0:
-                x2 /= a
-                x2 += x1
-                x2 *= a
+                if np.issubdtype(x2.dtype, np.inexact):
+                    x2 /= a
+                    x2 += x1
+                    x2 *= a
+                else:
+                    # In-place true division is not defined for integer
+                    # (and boolean) arrays
+                    x2 += a * x1
             return x2
 
         def fallback_scal(a, x, n):
